@@ -96,7 +96,7 @@ def select_entries(entries, tier, seed, quick_depth=2, quick_sample=12, thorough
 
 
 def entry_shards(tag, client, entries, alpha, judge, upgrade=False, cfg=None, budget=120.0,
-                 check_refused=False, cat=None, build_ops=None):
+                 check_refused=False, cat=None, build_ops=None, pre_hook=None):
     """one shard per catalogue entry; `cat` = (entries, closed, keys) enables the closure
     check: the successor of every non-refused step by a catalogue-building operation must
     be a state of the catalogue (valid when the catalogue is closed, or for entries below
@@ -117,6 +117,7 @@ def entry_shards(tag, client, entries, alpha, judge, upgrade=False, cfg=None, bu
                 with h2h.native():
                     ctx = ops.replay(client, history, cfg=cfg, upgrade=upgrade)
                     pre = ctx.obs.clone()
+                    ctx.pre_info = pre_hook(ctx) if pre_hook else None
                 op = sym_choice('op', alpha)
                 before = fingerprint.snapshot(ctx.me) if check_refused else None
                 out_ = ops.run_op(ctx, op, symbolic=True)
@@ -174,7 +175,7 @@ def slices(tier, seed, client, novalidate=False):
 
 
 def standard_shards(tier, seed, judge, alpha_filter=None, novalidate=False, extra_ops=None,
-                    check_refused=False):
+                    check_refused=False, closure=True, pre_hook=None):
     out = []
     for client in (True, False):
         for sl in slices(tier, seed, client, novalidate=novalidate):
@@ -184,6 +185,8 @@ def standard_shards(tier, seed, judge, alpha_filter=None, novalidate=False, extr
             if alpha_filter:
                 alpha = [o for o in alpha if alpha_filter(o)]
             out += entry_shards(sl['tag'], client, sl['entries'], alpha, judge,
-                                upgrade=sl['upgrade'], cfg=sl['cfg'], cat=sl['cat'],
-                                build_ops=sl['build_ops'], check_refused=check_refused)
+                                upgrade=sl['upgrade'], cfg=sl['cfg'],
+                                cat=sl['cat'] if closure else None,
+                                build_ops=sl['build_ops'], check_refused=check_refused,
+                                pre_hook=pre_hook)
     return out
